@@ -5,11 +5,14 @@
              list-of-node fields = labelled kids in _fields order).  [visit] is
              SafetyAnalyzer.visit; every visit_X method of the class does some checks of its own
              ([local]) and then calls generic_visit ([descends]) - except visit_Global (pass) and the
-             early return of visit_ImportFrom for `from . import x`.
-   Part (a)  the command line: _own_options, _find_script_path, classify (analyze_python_file and
-             Path.resolve are oracles), and [py_cmdline], a specification of CPython 3.12's own
-             argv grammar (Python/getopt.c + config_parse_cmdline) that the harness validates against
-             the real interpreter.
+             early return of visit_ImportFrom for `from . import x`.  The visitor's one piece of state
+             that matters, _called_names (Name nodes that are the func of a Call), is the [callee]
+             argument: a Call is visited before its func.  [source_viols] is analyze_python_source
+             after ast.parse: the visitor plus the sibling-module check over imported_roots.
+   Part (a)  the command line: _scan_options, classify (analyze_python_file, Path.resolve and the
+             calendar shadow test are oracles), and [py_cmdline], a specification of CPython 3.12's
+             own argv grammar (Python/getopt.c + config_parse_cmdline) that the harness validates
+             against the real interpreter.
    Verdicts / violation kinds only: descriptions and reason texts are not modelled. *)
 From DippyV Require Import Base.Str Base.Sx Base.Tree Gen.Tables.
 
@@ -17,9 +20,10 @@ From DippyV Require Import Base.Str Base.Sx Base.Tree Gen.Tables.
 
 Inductive vk :=
 | KImportDangerous | KImportUnknown | KImportRelative   (* kind "import"     *)
+| KImportName | KShadow                                 (* kind "import": from m import <module-like name>; sibling file *)
 | KBuiltin                                              (* kind "builtin"    *)
 | KMethod                                               (* kind "method"     *)
-| KReflAttr | KReflName                                 (* kind "reflection" *)
+| KReflAttr | KEscapeAttr | KReflName                   (* kind "reflection" *)
 | KAsyncDef | KAwait                                    (* kind "async"      *)
 | KWithOpen                                             (* kind "io"         *)
 | KRaise.                                               (* IndexError in visit_Call: name[0] of an empty identifier *)
@@ -41,6 +45,10 @@ Definition mod_viols (m : str) : list viol :=
   if mod_dangerous m then [(KImportDangerous, m)]
   else if negb (mod_known m) then [(KImportUnknown, m)]
   else [].
+
+(* alias.name.lstrip("_") in DANGEROUS_MODULES or alias.name in ESCAPE_ATTRS; same test for node.attr *)
+Definition module_like (n : str) : bool :=
+  mem_str n PY_ESCAPE_ATTRS || mem_str (lstrip [95] n) PY_DANGEROUS_MODULES.
 
 Definition is_empty (s : str) : bool := match s with [] => true | _ => false end.
 
@@ -89,20 +97,34 @@ Definition klass (k : str) : kcl :=
   else if str_eqb k $"Global" then CGlobal
   else COther.
 
-(* what the visit_<kind> method of this node reports itself *)
-Definition local (allow_print : bool) (t : tree) : list viol :=
+(* isinstance(node.ctx, ast.Load) *)
+Definition is_load (t : tree) : bool :=
+  match child "ctx" t with Some c => is_kind "Load" c | None => false end.
+
+(* what the visit_<kind> method of this node reports itself; callee: id(node) in self._called_names,
+   i.e. this node is the func of the Call above it and is a Name *)
+Definition local (allow_print : bool) (callee : bool) (t : tree) : list viol :=
   match klass (kind_of t) with
   | CImport => flat_map (fun a => mod_viols (attr_d "name" a)) (children "names" t)
   | CImportFrom =>
       match attr "module" t with
       | None => [(KImportRelative, [])]
-      | Some m => mod_viols m
+      | Some m =>
+          mod_viols m ++
+          flat_map (fun a => if module_like (attr_d "name" a) then [(KImportName, attr_d "name" a)] else [])
+                   (children "names" t)
       end
   | CCall => call_viols allow_print t
   | CAttribute =>
-      if mem_str (attr_d "attr" t) PY_REFLECTION_ATTRS then [(KReflAttr, attr_d "attr" t)] else []
+      if mem_str (attr_d "attr" t) PY_REFLECTION_ATTRS then [(KReflAttr, attr_d "attr" t)]
+      else if module_like (attr_d "attr" t) then [(KEscapeAttr, attr_d "attr" t)]
+      else []
   | CName =>
-      if mem_str (attr_d "id" t) PY_DANGEROUS_NAMES then [(KReflName, attr_d "id" t)] else []
+      let n := attr_d "id" t in
+      if mem_str n PY_DANGEROUS_NAMES then [(KReflName, n)]
+      else if is_load t && negb callee && mem_str n PY_DANGEROUS_BUILTINS
+              && negb (str_eqb n $"print" && allow_print) then [(KBuiltin, n)]
+      else []
   | CAsyncDef => [(KAsyncDef, [])]
   | CAwait => [(KAwait, [])]
   | CWith => flat_map with_item_viols (children "items" t)
@@ -118,13 +140,56 @@ Definition descends (t : tree) : bool :=
   | _ => true
   end.
 
+(* visit_Call marks node.func when it is a Name, then generic_visit reaches it *)
+Definition marks (parent_kind : str) (label : str) (c : tree) : bool :=
+  match klass parent_kind with
+  | CCall => str_eqb label $"func" && is_kind "Name" c
+  | _ => false
+  end.
+
 (* SafetyAnalyzer.visit(node); analyzer.violations in order *)
-Fixpoint visit (allow_print : bool) (t : tree) : list viol :=
+Fixpoint visit (allow_print : bool) (callee : bool) (t : tree) : list viol :=
   match t with
   | T k ss fs ks =>
-      local allow_print (T k ss fs ks) ++
-      (if descends (T k ss fs ks) then flat_map (fun p => visit allow_print (snd p)) ks else [])
+      local allow_print callee (T k ss fs ks) ++
+      (if descends (T k ss fs ks)
+       then flat_map (fun p => visit allow_print (marks k (fst p) (snd p)) (snd p)) ks
+       else [])
   end.
+
+(* analyzer.imported_roots, over the nodes the visitor reaches *)
+Definition node_roots (t : tree) : list str :=
+  match klass (kind_of t) with
+  | CImport => map (fun a => root_of (attr_d "name" a)) (children "names" t)
+  | CImportFrom => match attr "module" t with None => [] | Some m => [root_of m] end
+  | _ => []
+  end.
+Fixpoint roots (t : tree) : list str :=
+  match t with
+  | T k ss fs ks =>
+      node_roots (T k ss fs ks) ++
+      (if descends (T k ss fs ks) then flat_map (fun p => roots (snd p)) ks else [])
+  end.
+
+(* sorted(set(...)) on strings: code-point order *)
+Fixpoint str_ltb (a b : str) : bool :=
+  match a, b with
+  | _, [] => false
+  | [], _ :: _ => true
+  | x :: a', y :: b' => if N.ltb x y then true else if N.ltb y x then false else str_ltb a' b'
+  end.
+Fixpoint insert_sorted (x : str) (l : list str) : list str :=
+  match l with
+  | [] => [x]
+  | y :: r => if str_eqb x y then l else if str_ltb x y then x :: l else y :: insert_sorted x r
+  end.
+Definition sorted_set (l : list str) : list str := fold_right insert_sorted [] l.
+
+(* analyze_python_source(source, allow_print, base) after a successful ast.parse;
+   sibling r: (base / f"{r}.py").exists() or (base / r).is_dir() *)
+Definition source_viols (sibling : str -> bool) (allow_print : bool) (t : tree) : list viol :=
+  visit allow_print false t ++
+  flat_map (fun r => if sibling r then [(KShadow, r)] else []) (sorted_set (roots t)).
 
 (* the kinds the model dispatches on are exactly the visit_ methods of the class (tie, see Proofs) *)
 Definition visit_kinds : list str :=
@@ -136,37 +201,50 @@ Definition visit_kinds : list str :=
 Definition is_dash (t : str) : bool := prefixb [45] t.          (* token.startswith("-") *)
 Definition dash : str := [45].
 
-(* _own_options(tokens)[1:] as a function of tokens[1:] *)
-Fixpoint own_tail (l : list str) : list str :=
-  match l with
-  | [] => []
-  | t :: r =>
-      if mem_str t PY_CM_FLAGS then [t]
-      else if mem_str t PY_FLAGS_WITH_ARG then
-        t :: match r with [] => [] | a :: r' => a :: own_tail r' end
-      else if is_dash t && negb (str_eqb t dash) then t :: own_tail r
-      else []
+(* ---- _scan_options ---- *)
+Inductive scl :=
+| SNext (takes_next : bool)              (* cluster read; -W / -X took the next token as argument *)
+| SProg (c : N) (attached : option str). (* -c / -m: the program; its argument attached or the next token *)
+
+Definition opt_name (c : N) : str := [45; c].                       (* "-" + opt *)
+Definition with_arg (c : N) : bool := mem_str [c] PY_SHORT_WITH_ARG.  (* opt in _SHORT_WITH_ARG *)
+Definition is_cm (c : N) : bool := N.eqb c 99 || N.eqb c 109.         (* opt in "cm" *)
+
+(* the inner while loop over token[1:]: options seen, and how the token ends *)
+Fixpoint scan_cluster (cs : str) : list str * scl :=
+  match cs with
+  | [] => ([], SNext false)
+  | c :: r =>
+      if with_arg c then
+        if is_cm c then ([opt_name c], SProg c (match r with [] => None | _ => Some r end))
+        else ([opt_name c], SNext (is_empty r))
+      else let (ss, e) := scan_cluster r in (opt_name c :: ss, e)
   end.
 
-(* _find_script_path: the token chosen as the script and its index; l = tokens[i:] *)
-Fixpoint find_script_at (i : nat) (l : list str) : option (nat * str) :=
-  match l with
-  | [] => None
-  | t :: r =>
-      if mem_str t PY_SAFE_FLAGS then None
-      else if mem_str t PY_CM_FLAGS then None
-      else if mem_str t PY_FLAGS_WITH_ARG then
-        match r with [] => None | _ :: r' => find_script_at (S (S i)) r' end
-      else if is_dash t then find_script_at (S i) r
-      else Some (i, t)
-  end.
-Definition find_script (rest : list str) : option str := option_map snd (find_script_at 1 rest).
+Record scanres := mkscan { sc_seen : list str; sc_idx : nat; sc_mode : option N; sc_arg : option str }.
+Definition add_seen (ss : list str) (r : scanres) : scanres :=
+  mkscan (ss ++ sc_seen r) (sc_idx r) (sc_mode r) (sc_arg r).
 
-(* list.index(x) for x in the list *)
-Fixpoint index_of (x : str) (l : list str) : nat :=
+(* the outer loop; l = tokens[i:] *)
+Fixpoint scan (i : nat) (l : list str) : scanres :=
   match l with
-  | [] => O
-  | y :: r => if str_eqb y x then O else S (index_of x r)
+  | [] => mkscan [] i None None
+  | t :: r =>
+      if negb (is_dash t) || str_eqb t dash then mkscan [] i None None
+      else if str_eqb t $"--" then mkscan [] (S i) None None
+      else if prefixb $"--" t then
+        add_seen [t]
+          (if str_eqb t $"--check-hash-based-pycs"
+           then match r with [] => mkscan [] (S (S i)) None None | _ :: r' => scan (S (S i)) r' end
+           else scan (S i) r)
+      else
+        match scan_cluster (tl t) with
+        | (ss, SNext false) => add_seen ss (scan (S i) r)
+        | (ss, SNext true) =>
+            add_seen ss (match r with [] => mkscan [] (S (S i)) None None | _ :: r' => scan (S (S i)) r' end)
+        | (ss, SProg c (Some a)) => mkscan ss i (Some c) (Some a)
+        | (ss, SProg c None) => mkscan ss (S i) (Some c) (hd_error r)
+        end
   end.
 
 (* Path(token).is_absolute() on POSIX; cwd / Path(token) for a normalised cwd *)
@@ -181,30 +259,35 @@ Section Classify.
   Variable resolve : str -> option str.   (* str(Path(p).resolve()); None: raises (embedded NUL) *)
   Variable analyze : str -> bool.         (* analyze_python_file(Path(p))[0] *)
 
+  Variable shadow : str -> bool.          (* (cwd / "calendar.py").exists() or (cwd / "calendar").is_dir() *)
+
   (* classify(ctx).action; ctx_cwd = ctx.cwd, proc_cwd = Path.cwd() *)
   Definition classify (ctx_cwd : option str) (proc_cwd : str) (tokens : list str) : pyres :=
     match tokens with
     | [] => PExn                                   (* get_description: tokens[0] *)
     | [_] => PAsk
-    | t0 :: rest =>
+    | _ :: rest =>
         let cwd := match ctx_cwd with Some c => c | None => proc_cwd end in
-        let own := t0 :: own_tail rest in
-        if existsb (fun t => mem_str t PY_SAFE_FLAGS) (own_tail rest) then PAllow
-        else if mem_str $"-c" own then PAsk
-        else if mem_str $"-m" own then
-          match nth_error tokens (S (index_of $"-m" own)) with
-          | Some m => if str_eqb m $"calendar" then PAllow else PAsk
+        let r := scan 1 rest in
+        let seen := sc_seen r in
+        if negb (forallb (fun o => mem_str o PY_KNOWN_OPTIONS) seen) then PAsk
+        else if existsb (fun o => mem_str o PY_INFO_OPTIONS) seen then PAllow
+        else if match sc_mode r with Some c => N.eqb c 99 | None => false end then PAsk
+        else if mem_str $"-i" seen || mem_str $"-x" seen then PAsk
+        else if match sc_mode r with Some c => N.eqb c 109 | None => false end then
+          match sc_arg r with
+          | Some m => if str_eqb m $"calendar" && negb (shadow cwd) then PAllow else PAsk
           | None => PAsk
           end
-        else if mem_str $"-i" own then PAsk
         else
-          match find_script rest with
+          match nth_error tokens (sc_idx r) with
           | None => PAsk
           | Some tok =>
-              match resolve (pjoin cwd tok) with
-              | None => PExn
-              | Some p => if analyze p then PAllow else PAsk
-              end
+              if str_eqb tok dash then PAsk
+              else match resolve (pjoin cwd tok) with
+                   | None => PExn
+                   | Some p => if analyze p then PAllow else PAsk
+                   end
           end
     end.
 End Classify.
@@ -306,15 +389,16 @@ Fixpoint pyargs (fl : pyflags) (i : nat) (l : list str) : pyrun :=
 
 Definition py_cmdline (tokens : list str) : pyrun := pyargs fl0 1 (tl tokens).
 
-(* Soundness of an approval with respect to that grammar: nothing runs, or the calendar module (no REPL afterwards),
+(* Soundness of an approval with respect to that grammar: nothing runs, or the standard calendar module (no REPL afterwards, no calendar.py in the cwd),
    or exactly the file whose analysis succeeded, from its first line, without a REPL afterwards. *)
 Section Sound.
   Variable resolve : str -> option str.
   Variable analyze : str -> bool.
+  Variable shadow : str -> bool.
   Definition sound (cwd : str) (tokens : list str) (r : pyrun) : Prop :=
     match r with
     | RUsageError | RInfo => True
-    | RModule _ m fl => m = $"calendar" /\ fl_inspect fl = false
+    | RModule _ m fl => m = $"calendar" /\ fl_inspect fl = false /\ shadow cwd = false
     | RFile i fl =>
         fl_inspect fl = false /\ fl_skip1 fl = false /\
         exists tok p, nth_error tokens i = Some tok /\ resolve (pjoin cwd tok) = Some p /\ analyze p = true
